@@ -56,3 +56,162 @@ Proof.
   split; [apply words_okb_ok; reflexivity|].
   vm_compute. intuition congruence.
 Qed.
+
+(** * widened (a): every [i], [end] - the exact panic sets - and the int32 arithmetic *)
+From Low Require Import Lib.MachInt Model.BitmapNext32 Spec.NextTotalSpec Proofs.NextTotal.
+
+(** NextOne for EVERY [i], [end]: panics iff [i] is not a position of the bitmap, or [end] is beyond the
+    bitmap and no 1-bit at or after [i] stops the scan; otherwise the first 1-bit of [i, end) or -1
+    (-1 for every [end < i]).  [spec_NextOne_any] is Spec/NextTotalSpec.v. *)
+Theorem C13_NextOne_any : forall bm, words_ok bm -> forall i e,
+  NextOne bm i e = spec_NextOne_any bm i e.
+Proof. exact NextOne_any. Qed.
+Print Assumptions C13_NextOne_any.
+
+(** PrevOne for EVERY [i], [end]: panics iff [end - 1] is not a position of the bitmap, or [i] is negative
+    and there is no 1-bit below [end]; [i] is never used as an index ([i >= end], also beyond the
+    bitmap, gives -1). *)
+Theorem C13_PrevOne_any : forall bm, words_ok bm -> forall i e,
+  PrevOne bm i e = spec_PrevOne_any bm i e.
+Proof. exact PrevOne_any. Qed.
+Print Assumptions C13_PrevOne_any.
+
+(** the same, as the sets of panicking arguments in terms of single bits *)
+Theorem C13_NextOne_panics_iff : forall bm, words_ok bm -> forall i e,
+  NextOne bm i e = None <->
+  (i < 0 \/ 64 * zlen bm <= i \/
+   (64 * zlen bm < e /\ forall p, i <= p < 64 * zlen bm -> bitz (flat bm) p = false)).
+Proof. exact NextOne_panics_iff. Qed.
+Print Assumptions C13_NextOne_panics_iff.
+
+Theorem C13_PrevOne_panics_iff : forall bm, words_ok bm -> forall i e,
+  PrevOne bm i e = None <->
+  (e < 1 \/ 64 * zlen bm < e \/ (i < 0 /\ forall p, 0 <= p < e -> bitz (flat bm) p = false)).
+Proof. exact PrevOne_panics_iff. Qed.
+Print Assumptions C13_PrevOne_panics_iff.
+
+(** the model with every int32 wrap written out (Model/BitmapNext32.v: [i+63], [i += 64], [wordIdx<<6 + tz],
+    [end--], [(end & ^63) - 1], [end -= 64], [end - lz]) IS the unbounded model, for every int32 [i], [end]
+    (also negative, beyond the bitmap, [end = MinInt32] where [end--] wraps) while [64 * len < 2^31] *)
+Theorem C13_int32_agree : forall bm, words_ok bm -> 64 * zlen bm < 2^31 -> forall i e,
+  in_i32 i -> in_i32 e ->
+  NextOne32 bm i e = NextOne bm i e /\ PrevOne32 bm i e = PrevOne bm i e.
+Proof. exact (fun bm Hok Hs i e Hi He => conj (NextOne32_eq bm Hok Hs i e Hi) (PrevOne32_eq bm Hok Hs i e Hi He)). Qed.
+Print Assumptions C13_int32_agree.
+
+(** hence the property itself, of the int32 model *)
+Theorem C13_NextOne32 : forall bm, words_ok bm -> 64 * zlen bm < 2^31 -> forall i e,
+  0 <= i <= e -> e <= 64 * zlen bm -> i < 64 * zlen bm ->
+  NextOne32 bm i e = Some (spec_NextOne bm i e).
+Proof. exact NextOne32_exact. Qed.
+Print Assumptions C13_NextOne32.
+
+Theorem C13_PrevOne32 : forall bm, words_ok bm -> 64 * zlen bm < 2^31 -> forall i e,
+  0 <= i <= e -> e <= 64 * zlen bm -> i < 64 * zlen bm -> 1 <= e ->
+  PrevOne32 bm i e = Some (spec_PrevOne bm i e).
+Proof. exact PrevOne32_exact. Qed.
+Print Assumptions C13_PrevOne32.
+
+(** non-vacuity: panics and non-panics outside the domain; the int32 model on the MinInt32 corner *)
+Example C13_any_nonvacuous :
+  words_ok [0; 4; 0] /\ 64 * zlen [0; 4; 0] < 2^31 /\
+  NextOne [0; 4; 0] 3 1000 = Some 66 /\ spec_NextOne_any [0; 4; 0] 3 1000 = Some 66 /\   (* end beyond, a 1-bit stops the scan *)
+  NextOne [0; 4; 0] 67 193 = None /\ spec_NextOne_any [0; 4; 0] 67 193 = None /\         (* end beyond, nothing stops it *)
+  NextOne [0; 4; 0] 67 192 = Some (-1) /\
+  NextOne [0; 4; 0] 67 5 = Some (-1) /\                                                  (* end < i *)
+  NextOne [0; 4; 0] (-1) 5 = None /\ NextOne [0; 4; 0] 192 192 = None /\
+  PrevOne [0; 4; 0] (-5) 192 = Some 66 /\ PrevOne [0; 4; 0] (-5) 66 = None /\            (* negative i *)
+  PrevOne [0; 4; 0] 0 66 = Some (-1) /\ PrevOne [0; 4; 0] 500 192 = Some (-1) /\         (* i beyond the bitmap *)
+  PrevOne [0; 4; 0] 0 0 = None /\ PrevOne [0; 4; 0] 0 193 = None /\
+  in_i32 (- 2^31) /\ PrevOne32 [0; 4; 0] 0 (- 2^31) = None /\ PrevOne [0; 4; 0] 0 (- 2^31) = None /\
+  NextOne32 [0; 4; 0] 3 (2^31 - 1) = Some 66 /\ NextOne32 [0; 4; 0] (- 2^31) 5 = None.
+Proof.
+  split; [apply words_okb_ok; reflexivity|].
+  vm_compute. intuition congruence.
+Qed.
+
+(** * widened (b): laws of NextOne / PrevOne as callers combine them
+    (NextOne / PrevOne of a Slice: C14_Slice_NextOne / C14_Slice_PrevOne; against Select and Rank: C02_NextOne_* / C02_*_then_PrevOne) *)
+From Low Require Import Model.BitmapNextIter Model.BitmapOf Proofs.NextLaws.
+
+(** walking a range with NextOne ([for i < end { p := NextOne(bm,i,end); if p < 0 {break}; ...; i = p+1 }])
+    visits exactly the 1-bits of the range, ascending, and never panics *)
+Theorem C13_IterNext : forall bm, words_ok bm -> forall i e,
+  0 <= i <= e -> e <= 64 * zlen bm ->
+  IterNext bm i e = Some (ones_in bm i e).
+Proof. exact IterNext_exact. Qed.
+Print Assumptions C13_IterNext.
+
+(** walking it with PrevOne ([for end > i { p := PrevOne(bm,i,end); if p < 0 {break}; ...; end = p }])
+    visits the same 1-bits in descending order *)
+Theorem C13_IterPrev : forall bm, words_ok bm -> forall i e,
+  0 <= i <= e -> e <= 64 * zlen bm ->
+  IterPrev bm i e = Some (rev (ones_in bm i e)).
+Proof. exact IterPrev_exact. Qed.
+Print Assumptions C13_IterPrev.
+
+(** over the whole bitmap the two walks are ToArray (C12's model of toarray.go) and its reverse *)
+Theorem C13_Iter_ToArray : forall bm, words_ok bm ->
+  IterNext bm 0 (64 * zlen bm) = ToArray bm /\
+  IterPrev bm 0 (64 * zlen bm) = option_map (@rev Z) (ToArray bm).
+Proof. exact (fun bm Hok => conj (IterNext_ToArray bm Hok) (IterPrev_ToArray bm Hok)). Qed.
+Print Assumptions C13_Iter_ToArray.
+
+(** duality, on a non-empty range: with [n = NextOne(bm,i,end)], [p = PrevOne(bm,i,end)]:
+    [PrevOne(bm,i,n+1) = n], [NextOne(bm,p,end) = p], nothing before [n] ([PrevOne(bm,i,n) = -1]),
+    nothing after [p] ([NextOne(bm,p+1,end) = -1]); [n = -1] iff [p = -1]; otherwise [i <= n <= p < end] *)
+Theorem C13_NextPrevDual : forall bm, words_ok bm -> forall i e,
+  0 <= i < e -> e <= 64 * zlen bm ->
+  let sn := spec_NextOne bm i e in
+  let sp := spec_PrevOne bm i e in
+  NextPrevDual bm i e = Some [sn; sp; sn; sp; -1; -1] /\
+  (sn = -1 <-> sp = -1) /\ (sn <> -1 -> i <= sn <= sp /\ sp < e).
+Proof. exact NextPrevDual_exact. Qed.
+Print Assumptions C13_NextPrevDual.
+
+(** a shorter range clips the result of a longer one: NextOne in [end], PrevOne in [i] *)
+Theorem C13_NextOne_shrink_end : forall bm, words_ok bm -> forall i e e',
+  0 <= i <= e -> e <= e' -> e' <= 64 * zlen bm -> i < 64 * zlen bm ->
+  NextOne bm i e = option_map (fun r => if (0 <=? r) && (r <? e) then r else -1) (NextOne bm i e').
+Proof. exact NextOne_shrink_end. Qed.
+Print Assumptions C13_NextOne_shrink_end.
+
+Theorem C13_PrevOne_grow_start : forall bm, words_ok bm -> forall i i' e,
+  0 <= i <= i' -> i' <= e -> e <= 64 * zlen bm -> i' < 64 * zlen bm -> 1 <= e ->
+  PrevOne bm i' e = option_map (fun r => if i' <=? r then r else -1) (PrevOne bm i e).
+Proof. exact PrevOne_grow_start. Qed.
+Print Assumptions C13_PrevOne_grow_start.
+
+(** moving the end the search starts from: the result is kept while it stays in the range, and
+    otherwise moves only in the direction of the search (monotone in [i] resp. [end]) *)
+Theorem C13_NextOne_advance_start : forall bm, words_ok bm -> forall i i' e r r',
+  0 <= i <= i' -> i' <= e -> e <= 64 * zlen bm -> i' < 64 * zlen bm ->
+  NextOne bm i e = Some r -> NextOne bm i' e = Some r' ->
+  (r = -1 -> r' = -1) /\ (i' <= r -> r' = r) /\ (r' <> -1 -> r <> -1 /\ r <= r').
+Proof. exact NextOne_advance_start. Qed.
+Print Assumptions C13_NextOne_advance_start.
+
+Theorem C13_PrevOne_retreat_end : forall bm, words_ok bm -> forall i e e' r r',
+  0 <= i <= e' -> e' <= e -> e <= 64 * zlen bm -> i < 64 * zlen bm -> 1 <= e' ->
+  PrevOne bm i e = Some r -> PrevOne bm i e' = Some r' ->
+  (r = -1 -> r' = -1) /\ (r < e' -> r' = r) /\ (r' <> -1 -> r <> -1 /\ r' <= r).
+Proof. exact PrevOne_retreat_end. Qed.
+Print Assumptions C13_PrevOne_retreat_end.
+
+(** non-vacuity: a bitmap with an all-zero word between its 1-bits; walks over a sub-range and the whole,
+    the duality bundle with distinct first / last, clipping and monotonicity instances that change the result *)
+Example C13_laws_nonvacuous :
+  words_ok [2^63 + 1; 0; 6] /\
+  IterNext [2^63 + 1; 0; 6] 1 130 = Some [63; 129] /\ ones_in [2^63 + 1; 0; 6] 1 130 = [63; 129] /\
+  IterPrev [2^63 + 1; 0; 6] 1 130 = Some [129; 63] /\
+  IterNext [2^63 + 1; 0; 6] 0 192 = Some [0; 63; 129; 130] /\ ToArray [2^63 + 1; 0; 6] = Some [0; 63; 129; 130] /\
+  IterPrev [2^63 + 1; 0; 6] 0 192 = Some [130; 129; 63; 0] /\
+  NextPrevDual [2^63 + 1; 0; 6] 1 131 = Some [63; 130; 63; 130; -1; -1] /\
+  NextPrevDual [2^63 + 1; 0; 6] 64 129 = Some [-1; -1; -1; -1; -1; -1] /\
+  NextOne [2^63 + 1; 0; 6] 64 192 = Some 129 /\ NextOne [2^63 + 1; 0; 6] 64 129 = Some (-1) /\
+  PrevOne [2^63 + 1; 0; 6] 0 129 = Some 63 /\ PrevOne [2^63 + 1; 0; 6] 64 129 = Some (-1) /\
+  NextOne [2^63 + 1; 0; 6] 0 192 = Some 0 /\ NextOne [2^63 + 1; 0; 6] 1 192 = Some 63.
+Proof.
+  split; [apply words_okb_ok; reflexivity|].
+  vm_compute. intuition congruence.
+Qed.
